@@ -193,7 +193,24 @@ DOMNode* DOMAttrNSImpl::rename(const XMLCh* namespaceURI, const XMLCh* name)
     if (el)
         el->removeAttributeNode(this);
 
-    setName(namespaceURI, name);
+    // setName() throws for a malformed name: the attribute must then be
+    // unchanged and still belong to its element
+    const XMLCh* oldName = fName;
+    const XMLCh* oldNamespaceURI = fNamespaceURI;
+    const XMLCh* oldLocalName = fLocalName;
+    const XMLCh* oldPrefix = fPrefix;
+    try {
+        setName(namespaceURI, name);
+    }
+    catch (...) {
+        fName = oldName;
+        fNamespaceURI = oldNamespaceURI;
+        fLocalName = oldLocalName;
+        fPrefix = oldPrefix;
+        if (el)
+            el->setAttributeNodeNS(this);
+        throw;
+    }
 
     if (el)
         el->setAttributeNodeNS(this);
